@@ -349,8 +349,12 @@ def build(s):
                                 unique_override=k.get("tpm_unique"), curve_override=k.get("tpm_curve"), type_override=k.get("tpm_type"))
         hname = ATT_HASH[att_alg] if att_alg in ATT_HASH else "SHA256"
         extra = HNAME[k.get("tpm_extra_hash", hname)](signed_ad + signed_cdh).digest()
+        if "tpm_extra_cut" in k:
+            extra = extra[:k["tpm_extra_cut"]]          # a truncated (possibly empty) qualifyingData, genuinely signed by the AIK
         name_prefix = k.get("tpm_name_prefix", struct.pack(">H", TPM_ALG[name_alg]))
         nm = name_prefix + HNAME[k.get("tpm_name_hash", name_alg)](k.get("tpm_named_pub_area", pub_area)).digest()
+        if "tpm_name_cut" in k:
+            nm = nm[:k["tpm_name_cut"]]
         cert_info = tpm_cert_info(extra, nm, magic=k.get("tpm_magic", 0xFF544347), typ=k.get("tpm_cert_type", 0x8017))
         san_attrs = k.get("tpm_san", [("2.23.133.2.1", k.get("tpm_manufacturer", "id:414D4400")), ("2.23.133.2.2", "model-x"), ("2.23.133.2.3", "id:00010002")])
         exts = []
@@ -366,7 +370,7 @@ def build(s):
         stmt = {"ver": k.get("tpm_ver", "2.0"), "alg": att_alg, "x5c": chain(leaf), "sig": sig, "certInfo": cert_info, "pubArea": pub_area}
     elif fmt == "apple":
         nonce = hashlib.sha256(signed_ad + signed_cdh).digest()
-        ext_val = k.get("apple_ext_prefix", b"\x30\x24\xa1\x22\x04\x20") + nonce
+        ext_val = k.get("apple_ext_prefix", b"\x30\x24\xa1\x22\x04\x20") + nonce[:k.get("apple_nonce_cut", 32)]
         exts = [] if k.get("apple_no_ext") else [(x509.UnrecognizedExtension(ObjectIdentifier("1.2.840.113635.100.8.2"), ext_val), False)]
         leaf_pub = k.get("apple_leaf_cred", cred).pk
         leaf = pki.leaf(name("Forged Apple credCert"), leaf_pub, nb=leaf_nb, na=leaf_na, exts=exts, signer_key=k.get("leaf_signer"))
@@ -407,6 +411,12 @@ def build(s):
         builtin["android-safetynet"] = [pki.root_pem()]
     else:
         raise ValueError(fmt)
+    leaf_pem = None
+    try:
+        if fmt in X5C_FORMATS:
+            leaf_pem = leaf.public_bytes(serialization.Encoding.PEM)
+    except Exception:
+        leaf_pem = None
     if "stmt_edit" in k:
         stmt = k["stmt_edit"](dict(stmt))
     ao = {"fmt": s.fmt_name(), "attStmt": stmt, "authData": k.get("ao_auth_data", ad)}
@@ -438,6 +448,10 @@ def build(s):
             roots = {fmtname: [PKI("Z", root_cn="Unrelated Root").root_pem()], other: [pki.root_pem()]}
         elif s.roots_mode == "none":
             roots = {}
+        elif s.roots_mode == "pin-leaf":
+            roots = {fmtname: [leaf_pem]}                      # the attestation certificate itself configured as the only anchor
+        elif s.roots_mode == "pin-leaf-and-root":
+            roots = {fmtname: [pki.root_pem(), leaf_pem]}
     if "roots_override" in k:
         roots = k["roots_override"]
     if s.fmt in ("apple", "android-key", "android-safetynet"):
